@@ -50,7 +50,7 @@ namespace pika::util::detail {
 
     function_base::~function_base() { destroy(); }
 
-    void function_base::op_assign(function_base const& other, vtable const* /* empty_vtable */)
+    void function_base::op_assign(function_base const& other, vtable const* empty_vtable)
     {
         if (vptr == other.vptr)
         {
@@ -58,19 +58,34 @@ namespace pika::util::detail {
             {
                 PIKA_ASSERT(other.object != nullptr);
                 // reuse object storage
-                object = vptr->copy(object, std::size_t(-1), other.object, /*destroy*/ true);
+                void* old_object = object;
+                try
+                {
+                    object = vptr->copy(object, std::size_t(-1), other.object, /*destroy*/ true);
+                }
+                catch (...)
+                {
+                    // the old target is destroyed and the copy threw: release the raw storage
+                    // and become empty (object must not keep pointing at the destroyed target)
+                    vptr->deallocate(old_object, function_storage_size, /*destroy*/ false);
+                    vptr = empty_vtable;
+                    object = nullptr;
+                    throw;
+                }
             }
         }
         else
         {
             destroy();
-            vptr = other.vptr;
+            // the old target is gone: be empty until the copy exists
+            vptr = empty_vtable;
+            object = nullptr;
             if (other.object != nullptr)
             {
-                object = vptr->copy(
+                object = other.vptr->copy(
                     storage, detail::function_storage_size, other.object, /*destroy*/ false);
             }
-            else { object = nullptr; }
+            vptr = other.vptr;
         }
     }
 
